@@ -566,6 +566,32 @@ class World:
         self.bump()
         return t
 
+    def mempool_chain(self, n, rng=None):
+        '''A strict chain of n unconfirmed txs (tx i spends output 0 of tx i-1); every link spendable.'''
+        rng = rng or self.rng
+        avail = {o: x for o, x in self.mempool_utxos().items() if x[2] >= 0 and x[1] > 10 * n
+                 and (not self.protected or o[0] not in self.protected)}
+        if not avail:
+            return []
+        o = rng.choice(sorted(avail))
+        value = avail[o][1]
+        spendable = [sc for sc in self.scripts if not unspendable(sc, 10 ** 9, self.activation) and sc[:1] != b'\x6a' and sc[:2] != b'\x00\x6a']
+        prev = o
+        out = []
+        for _ in range(n):
+            self.salt += 1
+            value -= rng.randrange(0, 5)
+            outs = [(value, rng.choice(self.hot) if rng.random() < 0.5 else rng.choice(spendable))]
+            if rng.random() < 0.2:
+                outs.append((0, rng.choice(spendable)))
+            t = Tx([(prev[0], prev[1], b'', MINUS1)], outs, locktime=self.salt)
+            self.mempool[t.hash] = t
+            self.txs[t.hash] = t
+            prev = (t.hash, 0)
+            out.append(t)
+        self.bump()
+        return out
+
     def mempool_evict(self, h):
         '''Remove a tx and its descendants.'''
         gone = {h}
